@@ -39,7 +39,7 @@ pub fn e2_profile_base() -> Profile {
         flavors: vec![Flavor::Plain, Flavor::SingleWriter, Flavor::Optimistic],
         w: Weights {
             write: 30,
-            weak: 1,
+            weak: 0,
             batch: 10,
             clear: 2,
             ingest: 0,
